@@ -56,6 +56,11 @@ Section Py.
       || nle diff (nabs (nmul rel (nfloat a)))
       || nle diff abs.
 
+  (* builtin max(a, b) / min(a, b) on two numbers: the first argument is kept
+     unless the second is strictly greater / smaller *)
+  Definition pymax (a b : num) : num := if nlt a b then b else a.   (* max(a, b) *)
+  Definition pymin (a b : num) : num := if nlt b a then b else a.   (* min(a, b) *)
+
   (* defaults of math.isclose *)
   Definition isclose0 (a b : num) : bool := isclose a b nrel nf0.
 
